@@ -103,6 +103,17 @@ def r1_total(repo, report):
         facts["inner_handlers"] = [src(h.type) if h.type is not None else "bare" for t in inner for h in t.handlers]
     report.ob("C12.R1", "ReaderProcess.run inner handler (format channel)", ok, facts=facts, expected="opening the files and detecting the format is covered by 'except Exception as e: send(-2); send((e, tb)); raise' on the format connection",
               loc=repo.loc(inner[0]) if inner else repo.loc(rrun), why="" if ok else "an exception class raised while opening/detecting is not forwarded on the format channel: the main process blocks on it forever")
+    # a forwarding handler must not fail itself before it has forwarded: every local it reads is bound before the try starts
+    for label, fn_, tr_ in (("WorkerProcess.run", wrun, strip_docstring(wrun.body)[0] if isinstance(strip_docstring(wrun.body)[0], ast.Try) else None),
+                            ("ReaderProcess.run outer handler", rrun, tries[0] if tries else None),
+                            ("ReaderProcess.run inner handler", rrun, inner[0] if inner else None)):
+        if tr_ is None:
+            continue
+        for h in tr_.handlers:
+            unbound = _maybe_unbound_in_handler(fn_, tr_, h)
+            report.ob("C12.R1", f"{label}: the handler reads only variables bound before the try", not unbound, facts={"may_be_unbound": unbound},
+                      expected="no local that is first assigned inside the try body (loop variables, results of calls that may raise) is read before the error has been forwarded", loc=repo.loc(h),
+                      why=(f"'{unbound[0]}' is assigned only inside the try body; if the failure happens before that, the handler itself raises UnboundLocalError and the error is never forwarded (the other processes wait forever)" if unbound else ""))
     # poison pills only on the success path
     sh = [x for x in calls(rrun) if chain(x.func) == "self.shutdown"]
     ok = len(sh) == 1
@@ -283,3 +294,60 @@ def r5_paired(repo, report):
     oc = [x for x in calls(iop) if chain(x.func) == "dnaio.open"]
     ok = len(oc) == 1 and src(oc[0].args[0]) == "*self._files"
     report.ob("C12.R5", "InputFiles.open reads all files with one reader", ok, facts={"call": src(oc[0])[:120] if oc else None}, expected="dnaio.open(*self._files, ...)", loc=repo.loc(iop))
+
+
+def _maybe_unbound_in_handler(fn, tr, h):
+    """locals read in the handler (before its last send) that are not definitely bound when the try statement starts"""
+    params_ = {a.arg for a in fn.args.posonlyargs + fn.args.args + fn.args.kwonlyargs}
+    if fn.args.vararg:
+        params_.add(fn.args.vararg.arg)
+    if fn.args.kwarg:
+        params_.add(fn.args.kwarg.arg)
+    stored_anywhere = {n.id for n in ast.walk(fn) if isinstance(n, ast.Name) and isinstance(n.ctx, ast.Store)}
+    for n in ast.walk(fn):
+        if isinstance(n, ast.ExceptHandler) and n.name:
+            stored_anywhere.add(n.name)
+    # definitely bound before the try: plain assignments that precede it in the chain of enclosing blocks
+    bound = set(params_)
+    node = tr
+    while node is not None and node is not fn:
+        parent = getattr(node, "_parent", None)
+        if parent is None:
+            break
+        for field in ("body", "orelse", "finalbody"):
+            blk = getattr(parent, field, None)
+            if isinstance(blk, list) and node in blk:
+                for st in blk[:blk.index(node)]:
+                    if isinstance(st, (ast.Assign, ast.AnnAssign, ast.AugAssign)) and getattr(st, "value", None) is not None:
+                        for t in (st.targets if isinstance(st, ast.Assign) else [st.target]):
+                            for x in ast.walk(t):
+                                if isinstance(x, ast.Name):
+                                    bound.add(x.id)
+                    elif isinstance(st, (ast.With,)):
+                        for it in st.items:
+                            if isinstance(it.optional_vars, ast.Name):
+                                bound.add(it.optional_vars.id)
+        if isinstance(parent, ast.With):
+            for it in parent.items:
+                if isinstance(it.optional_vars, ast.Name):
+                    bound.add(it.optional_vars.id)
+        if isinstance(parent, ast.ExceptHandler) and parent.name:
+            bound.add(parent.name)
+        node = parent
+    if h.name:
+        bound.add(h.name)
+    out = []
+    local_in_handler = set()
+    for st in h.body:
+        for y in ast.walk(st):  # names bound by the statement's own loops / comprehensions / with-items
+            if isinstance(y, (ast.For, ast.comprehension)):
+                local_in_handler |= {x.id for x in ast.walk(y.target) if isinstance(x, ast.Name)}
+            elif isinstance(y, ast.With):
+                local_in_handler |= {it.optional_vars.id for it in y.items if isinstance(it.optional_vars, ast.Name)}
+        for x in ast.walk(st):
+            if isinstance(x, ast.Name) and isinstance(x.ctx, ast.Load) and x.id in stored_anywhere and x.id not in bound and x.id not in local_in_handler and x.id not in out:
+                out.append(x.id)
+        for x in ast.walk(st):
+            if isinstance(x, ast.Name) and isinstance(x.ctx, ast.Store):
+                local_in_handler.add(x.id)
+    return out
